@@ -6,7 +6,15 @@ From V Require Import Base.Util Gql.Ast C12.Model C12.Spec.
     case, so the harness sends every distinct piece once ([table]) and a text
     [{"kind":"Document","definitions":[P1,P2,…]}] as the indices of its pieces; it has verified that
     re-assembly gives back the exact text (otherwise it sends the text raw).  [decode_text] is that re-assembly. *)
-Inductive text := TPieces (idx : list N) | TRaw (t : str).
+Inductive ztext := Z_ (coded : str) | R_ (raw : str).
+Inductive text := TPieces (idx : list N) | TRaw (t : ztext).
+
+(** static dictionary coding (harness: dict_encode): code point 57344+k stands for the k-th entry of the
+    dictionary the harness writes at the top of each case file ([dict_]) *)
+Definition expand_char (dict : list str) (c : N) : str :=
+  if (57344 <=? c)%N && (c <? 57344 + N.of_nat (length dict))%N then nth (N.to_nat (c - 57344)) dict [] else [c].
+Definition expand (dict : list str) (z : ztext) : str :=
+  match z with Z_ x => flat_map (expand_char dict) x | R_ x => x end.
 
 Definition text_prefix := Eval vm_compute in s "{""kind"":""Document"",""definitions"":[".
 Definition text_suffix := Eval vm_compute in s "]}".
@@ -17,10 +25,10 @@ Fixpoint join_pieces (table : list str) (idx : list N) (first : bool) : str :=
   | i :: r => (if first then [] else [44%N]) ++ nth (N.to_nat i) table [] ++ join_pieces table r false
   end.
 
-Definition decode_text (table : list str) (t : text) : str :=
+Definition decode_text (dict : list str) (table : list str) (t : text) : str :=
   match t with
   | TPieces idx => text_prefix ++ join_pieces table idx true ++ text_suffix
-  | TRaw x => x
+  | TRaw x => expand dict x
   end.
 
 (** what a printer run produced: the JSON chunks it wrote (one per definition, in order), or a panic *)
@@ -28,8 +36,8 @@ Inductive outcome_of (T : Type) := OOk (texts : list T) | OPanic (msg : str).
 Arguments OOk {T} texts. Arguments OPanic {T} msg.
 Definition outcome := outcome_of str.
 
-Definition decode_outcome (table : list str) (o : outcome_of text) : outcome :=
-  match o with OOk ts => OOk (map (decode_text table) ts) | OPanic m => OPanic m end.
+Definition decode_outcome (dict : list str) (table : list str) (o : outcome_of text) : outcome :=
+  match o with OOk ts => OOk (map (decode_text dict table) ts) | OPanic m => OPanic m end.
 
 (** positions play no role in C12/Model.v; the harness replaces every position by this constant *)
 Definition p_ : pos := pos0.
@@ -37,7 +45,8 @@ Definition p_ : pos := pos0.
 Inductive case :=
 | CDoc (accepted : bool)          (* the real [check] raised no diagnostic for the document (false also when no schema was used) *)
        (d : opdoc)                (* the document as the real parser (+ resolve_operation_extensions, + AST edits) produced it *)
-       (table : list str)         (* distinct pieces of the texts below *)
+       (dict : list str)          (* the harness's coding dictionary *)
+       (table0 : list ztext)      (* distinct pieces of the texts below *)
        (js : outcome_of text)     (* print_js_for_operation_document through a recording SourceMapWriter *)
        (ts : option (outcome_of text)) (* print_types_for_operation_document with print_values = true (standalone-ts mode), if run *)
        (whole : text)             (* verif_hooks::print_to_json_string(&document) *)
@@ -57,9 +66,6 @@ Definition model_outcome (d : opdoc) : option outcome :=
   | OutOfFuel => None
   end.
 
-Definition def_selset (d : execdef) : option selset :=
-  match d with DOp o => Some (op_sel o) | DFrag f => Some (fr_sel f) | DImport _ => None end.
-
 Fixpoint model_names (defs todo : list execdef) : option (list (list str)) :=
   match todo with
   | [] => Some []
@@ -76,10 +82,11 @@ Fixpoint model_names (defs todo : list execdef) : option (list (list str)) :=
 
 Definition agree (c : case) : bool :=
   match c with
-  | CDoc _ d table js0 ts0 whole0 names =>
-      let js := decode_outcome table js0 in
-      let ts := option_map (decode_outcome table) ts0 in
-      let whole := decode_text table whole0 in
+  | CDoc _ d dict table0 js0 ts0 whole0 names =>
+      let table := map (expand dict) table0 in
+      let js := decode_outcome dict table js0 in
+      let ts := option_map (decode_outcome dict table) ts0 in
+      let whole := decode_text dict table whole0 in
       option_eqb outcome_eqb (model_outcome d) (Some js)
       && (match ts with Some t => option_eqb outcome_eqb (model_outcome d) (Some t) | None => true end)
       && str_eqb (document_text d) whole
@@ -109,11 +116,15 @@ Definition outcome_ok (doc : list adef) (o : outcome) : bool :=
 
 Definition holds (c : case) : bool :=
   match c with
-  | CDoc accepted d table js0 ts0 whole0 _ =>
-      let js := decode_outcome table js0 in
-      let ts := option_map (decode_outcome table) ts0 in
-      let whole := decode_text table whole0 in
+  | CDoc accepted d dict table0 js0 ts0 whole0 _ =>
+      let table := map (expand dict) table0 in
+      let js := decode_outcome dict table js0 in
+      let ts := option_map (decode_outcome dict table) ts0 in
+      let whole := decode_text dict table whole0 in
       let doc := erase_defs (od_defs d) in
+      (* documents the grammar can produce (operation / fragment / inline-fragment selection sets are
+         non-empty); the harness also edits ASTs into shapes outside it, for the correspondence only *)
+      if negb (forallb wf_def (od_defs d)) then true else
       (* node-for-node: the whole document's JSON denotes the document *)
       (match read_document whole with Some got => leqb adef_eqb got doc | None => false end)
       (* per definition: only for documents that are accepted (by the real checker, or closed by the
